@@ -5,6 +5,7 @@ cd /verif
 for D in seeded/C*-*; do
   id=$(basename $D); P=${id%-*}
   [ -f $D/patch.diff ] || continue
+  if [ -n "$RESEED_SKIP_LOG" ] && grep -q "^$D " "$RESEED_SKIP_LOG" 2>/dev/null; then continue; fi
   # a change seeded against one property may be the business of a neighbouring one as well
   case "$id" in
     C03-3|C03-4) X="C04";; C04-4) X="C03";; C14-3) X="C01";; C15-4) X="C07";; C04-3) X="C06";; C10-4) X="C05";;
